@@ -8,7 +8,7 @@ Progs(u) == CASE Family = "pairs" -> Pairs(0)
            [] Family = "skeletons" -> Skeletons(D)
            [] Family = "maplits" -> MapLits(D)
            [] Family = "closures" -> Closures(D)
-           [] Family = "blockclosures" -> BlockClosures(0) \cup MultiAssigns(0)
+           [] Family = "blockclosures" -> BlockClosures(0) \cup MultiAssigns(0) \cup CallbackClosures(0)
            [] Family = "updates" -> Updates(0) \cup StrProgs(0) \cup IterMuts(0) \cup DeferProgs(0)
            [] Family = "itermuts" -> IterMuts(0) \cup StrProgs(0)
 VARIABLE prog
